@@ -746,49 +746,55 @@ section sync
 variable {m : Machine} {u : UEnv} {P : St → Prop} {C : Cand → Prop} {E : St → Cand → Prop}
 
 theorem drainLoop_equiv (hP : RunInv m u (hooksFlagged u m) .sync P C E) :
-    ∀ (budget : Nat) {s s' : St}, St.equiv m s s' → P s →
-      St.equiv m (drainLoop m u budget s) (drainLoop m u budget s') ∧ P (drainLoop m u budget s) := by
-  intro budget
-  induction budget with
+    ∀ (fuel c : Nat) {s s' : St}, St.equiv m s s' → P s →
+      St.equiv m (drainLoop m u fuel c s) (drainLoop m u fuel c s') ∧ P (drainLoop m u fuel c s) := by
+  intro fuel
+  induction fuel with
   | zero =>
-    intro s s' he hs
-    simp only [drainLoop]
-    rw [← he.queue]
+    intro c s s' he hs
+    rw [drainLoop_zero, drainLoop_zero, ← he.queue]
     split
     · exact ⟨he, hs⟩
     · exact ⟨he.setQueue _, hP.frame s _ rfl rfl hs⟩
   | succ b ih =>
-    intro s s' he hs
+    intro c s s' he hs
     cases hq : s.queue with
     | nil =>
       have hq' : s'.queue = [] := he.queue ▸ hq
-      simp only [drainLoop, hq, hq']
+      rw [drainLoop_nil m u b c s hq, drainLoop_nil m u b c s' hq']
       exact ⟨he, hs⟩
     | cons q rest =>
       have hq' : s'.queue = q :: rest := he.queue ▸ hq
-      obtain ⟨e, sf⟩ := q
-      simp only [drainLoop, hq, hq']
       by_cases hst : s.status = "running"
       · have hst' : s'.status = "running" := he.status ▸ hst
-        have hns : ¬ (s.status ≠ "running") := fun hn => hn hst
-        have hns' : ¬ (s'.status ≠ "running") := fun hn => hn hst'
-        rw [if_neg hns, if_neg hns']
-        have e1 : St.equiv m (emit ("#recv:" ++ e.type) { s with queue := rest })
-            (emit ("#recv:" ++ e.type) { s' with queue := rest }) := (he.setQueue rest).emit _
-        have p1 : P (emit ("#recv:" ++ e.type) { s with queue := rest }) := hP.frame s _ rfl rfl hs
-        obtain ⟨e2, p2⟩ := processEvent_equiv' (hooksFlagged_ok u m) (hooksFlagged_perm u m) e hP e1 p1
-        obtain ⟨e3, p3⟩ := transientLoop_equiv' (hooksFlagged_ok u m) (hooksFlagged_perm u m) hP m.maxIterations e2 p2
-        by_cases herr : (transientLoop (hooksFlagged u m) .sync m u m.maxIterations
-            (processEvent (hooksFlagged u m) .sync m u e (emit ("#recv:" ++ e.type) { s with queue := rest }))).err.isSome = true
-        · have herr' := e3.err ▸ herr
-          rw [if_pos herr, if_pos herr']; exact ⟨e3, p3⟩
-        · have herr' := e3.err ▸ herr
-          rw [if_neg herr, if_neg herr']; exact ih e3 p3
+        cases ht : syncTrips m c q with
+        | true =>
+          rw [drainLoop_trip m u b c s q rest hq hst ht, drainLoop_trip m u b c s' q rest hq' hst' ht]
+          have e1 : St.equiv m (syncPurge s) (syncPurge s') := by
+            unfold syncPurge; rw [← he.queue]; exact he.setQueue _
+          exact ih 0 e1 (hP.frame s _ rfl rfl hs)
+        | false =>
+          rw [drainLoop_step m u b c s q rest hq hst ht, drainLoop_step m u b c s' q rest hq' hst' ht]
+          have e1 : St.equiv m (emit ("#recv:" ++ q.ev.type) { s with queue := rest })
+              (emit ("#recv:" ++ q.ev.type) { s' with queue := rest }) := (he.setQueue rest).emit _
+          have p1 : P (emit ("#recv:" ++ q.ev.type) { s with queue := rest }) := hP.frame s _ rfl rfl hs
+          obtain ⟨e2, p2⟩ := processEvent_equiv' (hooksFlagged_ok u m) (hooksFlagged_perm u m) q.ev hP e1 p1
+          obtain ⟨e3, p3⟩ := transientLoop_equiv' (hooksFlagged_ok u m) (hooksFlagged_perm u m) hP m.maxIterations e2 p2
+          have e3' : St.equiv m (drainMacro m u q.ev { s with queue := rest }) (drainMacro m u q.ev { s' with queue := rest }) := e3
+          have p3' : P (drainMacro m u q.ev { s with queue := rest }) := p3
+          by_cases herr : (drainMacro m u q.ev { s with queue := rest }).err.isSome = true
+          · have herr' := e3'.err ▸ herr
+            rw [if_pos herr, if_pos herr']; exact ⟨e3', p3'⟩
+          · have herr' := e3'.err ▸ herr
+            rw [if_neg herr, if_neg herr']; exact ih _ e3' p3'
       · have hst' : ¬ s'.status = "running" := he.status ▸ hst
-        have hns : s.status ≠ "running" := hst
-        have hns' : s'.status ≠ "running" := hst'
-        rw [if_pos hns, if_pos hns']
-        exact ⟨he.setQueue _, hP.frame s _ rfl rfl hs⟩
+        rw [drainLoop_not_running m u b c hst, drainLoop_not_running m u b c hst', ← he.queue]
+        split
+        · exact ⟨he, hs⟩
+        · exact ⟨he.setQueue _, hP.frame s _ rfl rfl hs⟩
+
+theorem drainFuel_congr (m : Machine) {s s' : St} (h : s.queue = s'.queue) : drainFuel m s = drainFuel m s' := by
+  unfold drainFuel; rw [h]
 
 theorem syncSend_equiv (hP : RunInv m u (hooksFlagged u m) .sync P C E) (e : Ev) {s s' : St}
     (he : St.equiv m s s') (hs : P s) :
@@ -796,8 +802,9 @@ theorem syncSend_equiv (hP : RunInv m u (hooksFlagged u m) .sync P C E) (e : Ev)
   unfold syncSend sndUnflagged drainFlagged
   by_cases hst : s.status = "running"
   · have hst' : s'.status = "running" := he.status ▸ hst
-    rw [if_pos hst, if_pos hst', ← he.queue]
-    exact drainLoop_equiv hP _ (he.setQueue _) (hP.frame s _ rfl rfl hs)
+    rw [if_pos hst, if_pos hst', ← he.queue,
+      drainFuel_congr m (s := { s' with queue := s.queue ++ [⟨e, false⟩] }) (s' := { s with queue := s.queue ++ [⟨e, false⟩] }) rfl]
+    exact drainLoop_equiv hP _ _ (he.setQueue _) (hP.frame s _ rfl rfl hs)
   · have hst' : ¬ s'.status = "running" := he.status ▸ hst
     rw [if_neg hst, if_neg hst']; exact ⟨he, hs⟩
 end sync
